@@ -99,6 +99,26 @@ fn dec(w: &[&str]) -> String {
             core::ops::Bound::Excluded(v) => format!("V1({})", v),
             core::ops::Bound::Unbounded => "V2(U)".into() }),
         "t:opt(fields(u32,u32))" => d.decode::<Option<core::ops::Range<u32>>>().map(|x| match x { None => "N".into(), Some(v) => format!("S([{},{}])", v.start, v.end) }),
+        "t:tagged(0,str)" => d.decode::<minicbor::data::Tagged<0, &str>>().map(|x| format!("s{}", hex(x.value().as_bytes()))),
+        "t:tagged(32,u8)" => d.decode::<minicbor::data::Tagged<32, u8>>().map(|x| x.value().to_string()),
+        "t:tup(u8,tagged(1000,i16))" => d.decode::<(u8, minicbor::data::Tagged<1000, i16>)>().map(|x| format!("[{},{}]", x.0, x.1.value())),
+        "t:opt(tagged(4294967296,bool))" => d.decode::<Option<minicbor::data::Tagged<4294967296, bool>>>().map(|x| match x {
+            None => "N".into(), Some(v) => format!("S({})", if *v.value() { "T" } else { "F" }) }),
+        "t:nz(u8)" => d.decode::<core::num::NonZeroU8>().map(|x| x.get().to_string()),
+        "t:nz(i64)" => d.decode::<core::num::NonZeroI64>().map(|x| x.get().to_string()),
+        "t:int" => d.decode::<Int>().map(|x| i128::from(x).to_string()),
+        "t:tag" => d.decode::<Tag>().map(|x| x.as_u64().to_string()),
+        "t:bool" => d.decode::<bool>().map(|x| if x { "T".into() } else { "F".into() }),
+        "t:char" => d.decode::<char>().map(|x| (x as u32).to_string()),
+        "t:unit" => d.decode::<()>().map(|_| "U".into()),
+        "t:u64" => d.decode::<u64>().map(|x| x.to_string()),
+        "t:i8" => d.decode::<i8>().map(|x| x.to_string()),
+        "t:barr(4)" => d.decode::<minicbor::bytes::ByteArray<4>>().map(|x| format!("h{}", hex(&x[..]))),
+        "t:bytes" => d.decode::<&minicbor::bytes::ByteSlice>().map(|x| format!("h{}", hex(&x[..]))),
+        "t:arr(2,opt(tup(u8,bool)))" => d.decode::<[Option<(u8, bool)>; 2]>().map(|x| {
+            let f = |o: &Option<(u8, bool)>| match o { None => "N".to_string(), Some((a, b)) => format!("S([{},{}])", a, if *b { "T" } else { "F" }) };
+            format!("[{},{}]", f(&x[0]), f(&x[1])) }),
+        "t:enum(u8,str)" => d.decode::<Result<u8, &str>>().map(|x| match x { Ok(v) => format!("V0({})", v), Err(e) => format!("V1(s{})", hex(e.as_bytes())) }),
         _ => return "bad-op".into()
     };
     match r {
